@@ -87,6 +87,8 @@ MUTATIONS = [
   "\tcase DeleteMetadataLogType:\n\t\tpayload = &DeleteMetadataLogPayload{}\n", "", "HydrateLog case for DELETE_METADATA removed"),
  ("C13-time-second-precision", "C13", TIME,
   "\treturn []byte(fmt.Sprintf(`\"%s\"`, t.Format(DateFormat))), nil\n", "\treturn []byte(fmt.Sprintf(`\"%s\"`, t.Format(time.RFC3339))), nil\n", "Time marshalled at second precision"),
+ ("C13-now-not-rounded", "C13", TIME,
+  "\t\tTime: time.Now().UTC().Round(DatePrecision),\n", "\t\tTime: time.Now().UTC(),\n", "Now() keeps nanoseconds (what is hashed is not what the microsecond-precision store keeps)"),
  ("C13-target-id-float", "C13", LOG,
   "\t\tid, err = strconv.ParseUint(string(x.TargetID), 10, 64)\n\tdefault:\n\t\tpanic(\"unknown type\")",
   "\t\tvar f float64\n\t\tf, err = strconv.ParseFloat(string(x.TargetID), 32)\n\t\tid = uint64(float32(f))\n\tdefault:\n\t\tpanic(\"unknown type\")", "set-metadata target id decoded through a float32"),
